@@ -40,7 +40,7 @@ func init() {
 		Exec:      exec,
 		Required: []string{"fwd-plain-args", "fwd-plain-noargs", "fwd-special-args", "fwd-special-noargs", "fwd-ref", "fwd-var", "compiled", "re-evaluated",
 			"redefinition-seen-by-old-caller", "early-failure-then-value", "mutual-recursion", "self-recursion", "self-recursion-guard-clause", "macro-use",
-			"macro-expands-to-later-function", "defvar-read", "global-state", "closure", "closure-state", "code-as-data", "function-designator", "two-callers", "re-evaluated-under-new-bindings", "reeval-cases"},
+			"macro-expands-to-later-function", "defvar-read", "global-state", "closure", "closure-state", "code-as-data", "function-designator", "two-callers", "re-evaluated-under-new-bindings", "reeval-cases", "keyword-arguments"},
 		Bound:    bound,
 		Selftest: selftest,
 	})
@@ -134,6 +134,12 @@ func sigMode(cls string) string {
 		return "repeat"
 	case "comprep", "compwholerep":
 		return "compile-repeat"
+	}
+	if cls == "redefall" {
+		return "redef"
+	}
+	if cls == "compredefall" {
+		return "compredef"
 	}
 	return cls // redef compredef early compearly
 }
